@@ -181,6 +181,14 @@ fn run_case(line: &str) -> String {
                 b.find_nth_set_bit_position(start, n).to_string()
             })
         }
+        "hastf" => {
+            // BooleanBuffer::has_true / has_false
+            let (var, l, lo, len) = (us(t[2]), unhex(t[3]), us(t[4]), us(t[5]));
+            guarded(move || {
+                let b = bb(&l, lo, len, var % 8);
+                format!("{} {}", b.has_true() as u8, b.has_false() as u8)
+            })
+        }
         "eq" => {
             let (var, l, lo, r, ro, len) = (us(t[2]), unhex(t[3]), us(t[4]), unhex(t[5]), us(t[6]), us(t[7]));
             guarded(move || {
@@ -283,7 +291,28 @@ fn bit_iterator_try_for_each(b: &[u8], off: usize, len: usize, out: &mut Vec<usi
 }
 
 fn gen_content(rng: &mut Rng, nbytes: usize) -> Vec<u8> {
-    match rng.below(7) {
+    match rng.below(10) {
+        7 => {
+            // all ones with a single cleared bit
+            let mut v = vec![0xFFu8; nbytes];
+            if nbytes > 0 {
+                let i = rng.usize(nbytes * 8);
+                v[i / 8] &= !(1 << (i % 8));
+            }
+            v
+        }
+        8 => {
+            // sparse: mostly ones (or mostly zeros) with a few flipped bits
+            let ones = rng.bool();
+            let mut v = vec![if ones { 0xFFu8 } else { 0 }; nbytes];
+            if nbytes > 0 {
+                for _ in 0..1 + rng.usize(4) {
+                    let i = rng.usize(nbytes * 8);
+                    v[i / 8] ^= 1 << (i % 8);
+                }
+            }
+            v
+        }
         0 => vec![0u8; nbytes],
         1 => vec![0xFFu8; nbytes],
         2 => vec![0xAAu8; nbytes],
@@ -320,8 +349,8 @@ fn gen_content(rng: &mut Rng, nbytes: usize) -> Vec<u8> {
 fn gen_range(rng: &mut Rng, len: Option<usize>) -> (Vec<u8>, usize, usize) {
     let off = if rng.chance(1, 3) { *rng.pick(&[0usize, 1, 7, 8, 9, 63, 64, 65, 127, 128, 129, 130]) } else { rng.usize(131) };
     let len = len.unwrap_or_else(|| {
-        if rng.chance(1, 20) {
-            200 + rng.usize(1500)
+        if rng.chance(1, 12) {
+            200 + rng.usize(4300)
         } else if rng.chance(1, 3) {
             *rng.pick(&[0usize, 1, 2, 7, 8, 9, 55, 56, 57, 63, 64, 65, 119, 120, 127, 128, 129, 191, 192, 193, 200])
         } else {
@@ -381,7 +410,14 @@ fn gen_case(rng: &mut Rng) -> (String, String) {
         }
         7 => {
             let (l, lo, len) = gen_range(rng, None);
-            (format!("C19 bits {} {} {} {}", var, hex(&l), lo, len), format!("op:bits {}", nontrivial(lo, len)))
+            if rng.bool() {
+                (format!("C19 bits {} {} {} {}", var, hex(&l), lo, len), format!("op:bits {}", nontrivial(lo, len)))
+            } else {
+                // has_true / has_false take block-folding fast paths only on long masks
+                let big = if rng.bool() { Some(1000 + rng.usize(4000)) } else { None };
+                let (l, lo, len) = if big.is_some() { gen_range(rng, big) } else { (l, lo, len) };
+                (format!("C19 hastf {} {} {} {}", var, hex(&l), lo, len), format!("op:hastf {}", nontrivial(lo, len)))
+            }
         }
         8 => {
             let (l, lo, len) = gen_range(rng, None);
@@ -530,7 +566,7 @@ fn main() {
                             _ => rng.bytes(nbytes),
                         };
                         let var = rng.usize(192);
-                        let op = ["chunks", "not", "count", "bits", "indices", "slices"][(class % 6) as usize];
+                        let op = ["chunks", "not", "count", "bits", "indices", "slices", "hastf"][(class % 7) as usize];
                         let line = format!("C19 {} {} {} {} {}", op, var, hex(&b), off, len);
                         let a = run_case(&line);
                         sink.case(line, a, &format!("op:{} exhaustive {}", op, nontrivial(off, len)));
